@@ -32,6 +32,9 @@ func c08Cases(seed int64, tier string) []core.Case {
 		if i%4 == 2 {
 			fc.Resess = 11
 		}
+		if i%6 == 3 || i%6 == 4 {
+			fc.Alias = true
+		}
 		cs = append(cs, core.MkCase(fmt.Sprintf("random-%s-%d", t, i), "history-"+t, r.Int63(), fc))
 	}
 	// geometry sweep: Create only (+ a handful of calls) across the cluster-size table boundaries,
